@@ -1,4 +1,5 @@
 mod check;
+mod collide;
 mod desc;
 mod exec;
 mod gen;
@@ -96,6 +97,7 @@ fn main() {
             let _ = std::fs::remove_dir_all(&scratch);
             c
         }
+        "collide" => collide::run(args.get(2).map(|s| s == "tail").unwrap_or(false)),
         "world" => {
             // debugging aid: build the data directory of a scenario's first run into <dir> and print the argv
             let text = std::fs::read_to_string(&args[2]).expect("read scenario");
